@@ -8,6 +8,9 @@ from pathlib import Path
 sys.path.insert(0, str(Path(__file__).resolve().parent))
 import common  # noqa: E402
 
+# the real code is imported from the tree under test (default /repo; SPARKX_REPO for scratch worktrees)
+sys.path.insert(0, str(common.REPO / "src"))
+
 
 def main():
     ap = argparse.ArgumentParser()
